@@ -92,6 +92,21 @@ def execute(spec):
             except Exception as ex:
                 ob[name] = False
                 ob["exc"] = ob["exc"] if ob["exc"] != "none" else type(ex).__name__
+        # "a finished order refuses further requests": try both requests on a copy whenever the order is finished
+        ob["probe_cancel"] = ob["probe_replace"] = "not_probed"
+        if ob.get("finished"):
+            import copy
+            for name, call in (("probe_cancel", lambda c: c.cancel_req()),
+                               ("probe_replace", lambda c: c.replace_req(price=float(c.price) + pxu, qty=float(c.qty) + unit))):
+                c2 = copy.deepcopy(o)
+                before = (str(c2.status), str(c2.clord_id), str(c2.orig_clord_id), float(c2.qty), float(c2.price))
+                try:
+                    call(c2)
+                    ob[name] = "built"
+                except Exception as ex:
+                    after = (str(c2.status), str(c2.clord_id), str(c2.orig_clord_id), float(c2.qty), float(c2.price))
+                    ob[name] = "refused" if after == before else "refused_but_changed"
+                    ob[name + "_exc"] = type(ex).__name__
         steps.append({"ev": ev, "obs": ob})
     return {"id": spec["id"], "steps": steps}
 
